@@ -21,6 +21,14 @@ import (
 
 // db suite: the database through its public API (RAM index modes), one operation per line.
 type dbSuite struct {
+	// noList: this case of a Merge profile has no list operations (a list record in a data file puts every later
+	// Merge of the case under finding D-MERGE-LIST, which hides what Merge does to sets and sorted sets)
+	noList  bool
+	// writes of this case that may be issued again verbatim (a member or key set back to an earlier state:
+	// the records A, B, A — what a "skip the duplicate" shortcut in Merge or recovery gets wrong)
+	again   []string
+	// lines to emit next, inside the current transaction (a burst A, B, A of writes to one member)
+	pendOps []string
 	dir     string
 	db      *nutsdb.DB
 	tx      *nutsdb.Tx
@@ -293,6 +301,9 @@ func (s *dbSuite) newCase(id int) {
 	s.faultAt = -1
 	s.bkN, s.bkPending, s.bkAfterMerge = 0, -1, false
 	s.optRng = nil
+	s.noList = (s.profile == "merge" || s.profile == "mcrash") && id%2 == 1
+	s.again = nil
+	s.pendOps = nil
 	if strings.HasPrefix(s.profile, "opts") {
 		g := 8
 		if s.profile == "optskv" {
@@ -974,7 +985,7 @@ func (s *dbSuite) gen(r *rand.Rand, step int) string {
 			s.pendObs = false
 			s.opened = false
 			return "close"
-		case (x == 1 || ((x == 3 || x == 4 || x == 5) && s.profile == "mcrash")) && (s.profile == "merge" || s.profile == "mcrash" || s.profile == "isoset"):
+		case (x == 1 || ((x == 3 || x == 4 || x == 5) && s.profile == "mcrash") || ((x == 3 || x == 4) && s.profile == "merge")) && (s.profile == "merge" || s.profile == "mcrash" || s.profile == "isoset"):
 			if s.profile == "mcrash" && !s.armedGen {
 				s.armedGen = true
 				s.mergeNext = true
@@ -1018,6 +1029,11 @@ func (s *dbSuite) gen(r *rand.Rand, step int) string {
 			return "begin w"
 		}
 		return "begin r"
+	}
+	if len(s.pendOps) > 0 {
+		l := s.pendOps[0]
+		s.pendOps = s.pendOps[1:]
+		return l
 	}
 	if s.txLeft <= 0 {
 		if s.profile == "crash" && s.txW && !s.armedGen && r.Intn(2) == 0 {
@@ -1073,6 +1089,9 @@ func (s *dbSuite) genOp(r *rand.Rand, dead bool) string {
 	} else if kind == "structs" {
 		kind = []string{"list", "set", "zset"}[r.Intn(3)]
 	}
+	if s.noList && kind == "list" {
+		kind = []string{"set", "zset", "zset"}[r.Intn(3)]
+	}
 	if s.profile == "isoset" {
 		// sets alone, in every bucket name, under keys and members whose bucket+key+member concatenations
 		// coincide across buckets, with merges and reopens (bucket isolation through Merge and recovery)
@@ -1092,7 +1111,7 @@ func (s *dbSuite) genOp(r *rand.Rand, dead bool) string {
 		switch r.Intn(14) {
 		case 0, 1, 2, 3, 4:
 			ttl, ts := s.genTTL(r)
-			return fmt.Sprintf("put %s %s %s %d %d", hb, hx(k), hx(s.genValue(r)), ttl, ts)
+			return s.orAgain(r, "put", fmt.Sprintf("put %s %s %s %d %d", hb, hx(k), hx(s.genValue(r)), ttl, ts))
 		case 5, 6:
 			return fmt.Sprintf("del %s %s %d", hb, hx(k), now)
 		case 7, 8:
@@ -1214,7 +1233,15 @@ func (s *dbSuite) genOp(r *rand.Rand, dead bool) string {
 		switch r.Intn(22) {
 		case 0, 1, 2, 3, 4, 20, 21:
 			f := float64(sc) / 4
-			return fmt.Sprintf("zadd %s %s %d %s %s %d", hb, hx(k), sc, hx([]byte(strconv.FormatFloat(f, 'f', -1, 64))), hx(pickVal(r)), now)
+			line := fmt.Sprintf("zadd %s %s %d %s %s %d", hb, hx(k), sc, hx([]byte(strconv.FormatFloat(f, 'f', -1, 64))), hx(pickVal(r)), now)
+			if (s.profile == "merge" || s.profile == "mcrash") && !dead && s.txW && r.Intn(6) == 0 {
+				// the member goes to another state and back, in adjacent records
+				sc2 := sc + 1 + r.Intn(3)
+				f2 := float64(sc2) / 4
+				s.pendOps = append(s.pendOps, fmt.Sprintf("zadd %s %s %d %s %s %d", hb, hx(k), sc2, hx([]byte(strconv.FormatFloat(f2, 'f', -1, 64))), hx(pickVal(r)), now), line)
+				return line
+			}
+			return s.orAgain(r, "zadd", line)
 		case 5:
 			return fmt.Sprintf("zrem %s %s %d", hb, hx(k), now)
 		case 6:
@@ -1279,6 +1306,26 @@ func (s *dbSuite) peek(dead bool, f func(t *nutsdb.Tx)) {
 		return
 	}
 	s.db.View(func(t *nutsdb.Tx) error { f(t); return nil })
+}
+
+// orAgain: in the Merge profiles, one write in four repeats an earlier write of the same kind verbatim
+func (s *dbSuite) orAgain(r *rand.Rand, op, line string) string {
+	if s.profile != "merge" && s.profile != "mcrash" {
+		return line
+	}
+	if r.Intn(4) == 0 {
+		var old []string
+		for _, l := range s.again {
+			if strings.HasPrefix(l, op+" ") {
+				old = append(old, l)
+			}
+		}
+		if len(old) > 0 {
+			return old[len(old)-1-r.Intn(min(len(old), 4))]
+		}
+	}
+	s.again = append(s.again, line)
+	return line
 }
 
 func (s *dbSuite) genVals(r *rand.Rand) [][]byte {
